@@ -82,7 +82,11 @@ def run_history(h, res):
                 xin = lib.status3(x)[2]; yin = lib.status3(y)[2]
                 z = x + y if st['fn'] == '+' else (x - y if st['fn'] == '-' else x * y)
                 z2 = y + x if st['fn'] == '+' else (y - x if st['fn'] == '-' else y * x)
-                st['_prop'] = (xin, yin, lib.status3(z)[2], lib.status3(z2)[2])
+                # ... also when the result is stored through a destination the caller supplies (out= of the function and of the NumPy spelling)
+                fn_ = {'+': (fx.add, np.add), '-': (fx.sub, np.subtract), '*': (fx.mul, np.multiply)}[st['fn']]
+                d1 = fx.Fxp(None, True, 62, 20); d2 = fx.Fxp(None, True, 62, 20)
+                z3 = fn_[0](x, y, out=d1); z4 = fn_[1](y, x, out=d2)
+                st['_prop'] = (xin, yin, lib.status3(z)[2] and lib.status3(z3)[2], lib.status3(z2)[2] and lib.status3(z4)[2] and (z3 is d1))
                 st['_unary'] = (xin, lib.status3(-x)[2], lib.status3(+x)[2], lib.status3(abs(x))[2],
                                 # the same operations through NumPy, and multiplication / division by a power of two
                                 lib.status3(np.negative(x))[2], lib.status3(np.abs(x))[2], lib.status3(x << 1)[2], lib.status3(x >> 1)[2]) + \
@@ -109,7 +113,7 @@ def compare(h, req_obs, out, res):
             xin, yin, zin, z2in = st.pop('_prop')
             un = st.pop('_unary')
             if (xin or yin) and not (zin and z2in):
-                res.fail(h, 'C04: result of arithmetic does not carry the inaccuracy flag of an operand', expected=True, got=(zin, z2in)); return
+                res.fail(h, 'C04: result of arithmetic (x op y, y op x, also stored through out=) does not carry the inaccuracy flag of an operand', expected=True, got=(zin, z2in)); return
             if un[0] and not all(un[1:]):
                 res.fail(h, 'C04: result of unary arithmetic (-x, +x, abs(x), np.negative, np.abs, x << 1, x >> 1, np.sum, fxp_sum, np.cumsum) does not carry the inaccuracy flag of its operand', expected=True, got=un[1:]); return
             continue
